@@ -63,7 +63,7 @@ pub fn gen(rng: &mut Prng) -> Cfg {
         d_us: *rng.pick(&[20_000u64, 50_000, 100_000, 200_000]),
         thr: *rng.pick(&[0.0, 0.25, 0.5, 0.5, 0.75, 1.0, 0.3, 0.6]),
         min_calls: None,
-        wait_us: *rng.pick(&[10_000u64, 30_000, 100_000, 10_000, 30_000, 0, 1000]),
+        wait_us: *rng.pick(&[10_000u64, 30_000, 100_000, 10_000, 30_000, 0, 1000, 10_000, 100_000, u64::MAX, u64::MAX / 2]),
         permitted: rng.range(1, 4) as usize,
         slow_thr_us: if rng.chance(0.4) { Some(*rng.pick(&[5_000u64, 10_000])) } else { None },
         slow_rate: *rng.pick(&[0.25, 0.5, 1.0, 0.75]),
@@ -133,8 +133,10 @@ pub fn gen(rng: &mut Prng) -> Cfg {
             };
             StepK::Call { kind, lat_us }
         } else if r < 92 {
-            let opts = [1000, c.wait_us.saturating_sub(1000), c.wait_us, c.wait_us + 1000, c.d_us / 2, c.d_us, c.d_us + 1000, c.d_us - 1000, 2 * c.wait_us];
-            StepK::Wait(*rng.pick(&opts))
+            let opts = [1000, c.wait_us.saturating_sub(1000), c.wait_us, c.wait_us.saturating_add(1000), c.d_us / 2, c.d_us, c.d_us + 1000, c.d_us - 1000, c.wait_us.saturating_mul(2)];
+            // "never recover on its own" waits (Duration::MAX and the like) are not slept through
+            let d = *rng.pick(&opts);
+            StepK::Wait(if d > 1_000_000_000 { 1_000_000 } else { d })
         } else if r < 95 {
             StepK::ForceOpen
         } else if r < 97 {
@@ -193,7 +195,7 @@ macro_rules! configure {
             b = b
                 .failure_rate_threshold($cfg.thr)
                 .sliding_window_size($cfg.w)
-                .wait_duration_in_open(Duration::from_micros($cfg.wait_us))
+                .wait_duration_in_open($crate::props::c04::dur_us($cfg.wait_us))
                 .permitted_calls_in_half_open($cfg.permitted)
                 .slow_call_rate_threshold($cfg.slow_rate);
             if $cfg.time_based {
@@ -210,6 +212,17 @@ macro_rules! configure {
     }};
 }
 pub(crate) use configure;
+
+/// u64::MAX stands for Duration::MAX, u64::MAX / 2 for that many *seconds* ("recover only manually")
+pub fn dur_us(us: u64) -> Duration {
+    if us == u64::MAX {
+        Duration::MAX
+    } else if us == u64::MAX / 2 {
+        Duration::from_secs(u64::MAX / 2)
+    } else {
+        Duration::from_micros(us)
+    }
+}
 
 pub fn base_builder(cfg: &Cfg) -> tower_resilience_circuitbreaker::CircuitBreakerConfigBuilder {
     match cfg.preset {
